@@ -18,9 +18,6 @@ to contain a reading (writing) access for that signature. Ordering clause:
 for every Assignment the LHS write is the last access recorded for its
 signature and no access has a larger location.
 """
-import json
-import os
-
 from vlib import c11_trace as T
 from vlib import gen_fortran as gf
 from vlib import psy
@@ -264,9 +261,3 @@ def replay(case):
         return "; ".join(f["msg"] for f in msgs[:3])
     return None
 
-
-if __name__ == "__main__":      # manual: python -m props.c11_access_info F
-    import sys
-    with open(sys.argv[1]) as fin:
-        print(replay(json.load(fin)))
-    del os
